@@ -243,13 +243,16 @@ MgmtFailed(props, cfg, S, e) ==
   [] e.op = "decorate" ->   \* creating instance i (first event of a trace, or re-decoration)
          Chk(props, "C05", "C05.Decorate", e.exc = "none")
     \cup Chk(props, "C15", "C15.Maxsize", e.exc = "none" => e.info[i][4] = cfg.inst[i].maxsize)
-  [] e.op = "clone" ->      \* j := dill.loads(dill.dumps(i))
-         LET j == e.j IN
-         Chk(props, "C20", "C20.CloneEqual", e.exc = "none" /\ e.mem[j] = S.mem[i] /\ e.info[j] = S.info[i]
-                               /\ (IF S.cur[i] = 0 THEN e.cur[j] = 0
-                                   ELSE e.cur[j] # 0 /\ e.archs[e.cur[j]] = S.archs[S.cur[i]]))
-    \cup Chk(props, "C20", "C20.CloneLeavesOriginal", e.mem[i] = S.mem[i] /\ e.info[i] = S.info[i] /\ e.cur[i] = S.cur[i]
-                               /\ \A x \in 1..cfg.na : x # e.cur[j] => e.archs[x] = S.archs[x])
+  [] e.op = "clone" ->      \* j := dill.loads(dill.dumps(i)); "inflight": taken by another thread while a call of i
+                            \* is inside the wrapped function - the reference is then the original as observed at that moment
+         LET j   == e.j
+             ref == IF "inflight" \in DOMAIN e THEN e ELSE S
+         IN
+         Chk(props, "C20", "C20.CloneEqual", e.exc = "none" /\ e.mem[j] = ref.mem[i] /\ e.info[j] = ref.info[i]
+                               /\ (IF ref.cur[i] = 0 THEN e.cur[j] = 0
+                                   ELSE e.cur[j] # 0 /\ e.archs[e.cur[j]] = ref.archs[ref.cur[i]]))
+    \cup Chk(props, "C20", "C20.CloneLeavesOriginal", e.mem[i] = ref.mem[i] /\ e.info[i] = ref.info[i] /\ e.cur[i] = ref.cur[i]
+                               /\ \A x \in 1..cfg.na : x # e.cur[j] => e.archs[x] = ref.archs[x])
   [] OTHER -> {<<"ALL", "Trace.UnknownOp">>}
 
 (* lock-step continuation after a dill round trip: the same operation was just applied to the   *)
@@ -260,8 +263,14 @@ MirrorFailed(props, cfg, S, e) ==
                                   /\ e.ret = e.mret /\ e.exc = e.mexc)
   ELSE {}
 
+(* an operation that never returned (the recorder gave up waiting): the decorated function, or its  *)
+(* restored copy, is unusable                                                                      *)
+BlockedFailed(props, e) ==
+       Chk(props, "C01", "C01.NeverBlocks", e.exc # "Blocked")
+  \cup Chk(props, "C20", "C20.NeverBlocks", e.exc # "Blocked")
+
 Failed(props, cfg, S, e) == (IF e.op = "call" THEN CallFailed(props, cfg, S, e) ELSE MgmtFailed(props, cfg, S, e))
-                            \cup MirrorFailed(props, cfg, S, e)
+                            \cup MirrorFailed(props, cfg, S, e) \cup BlockedFailed(props, e)
 
 -----------------------------------------------------------------------------
 (* Ghost update: recency, frequency, taint (entries that entered memory     *)
